@@ -187,8 +187,25 @@ def _eval(task):
     return {"n": n, "skipped": skipped, "bad": out, "base": base, "tokens": len(toks), "inner": len(inner_texts)}
 
 
+# one lower-case seed per statement family whose extractor looks at keywords (multi-statement where the effect needs a history)
+EXTRA_SEEDS = [
+    ("ansi", "insert into tab1 select * from src; alter table tab1 rename to tab2"),
+    ("mysql", "insert into tab1 select * from src; rename table tab1 to tab2"),
+    ("hive", "alter table tab1 exchange partition (p = 1) with table tab2"),
+    ("snowflake", "alter table tab1 swap with tab2"),
+    ("ansi", "insert into tab1 select * from src; drop table if exists src2; truncate table tab3"),
+    ("sparksql", "insert overwrite table tab1 select a from src"),
+    ("ansi", "merge into tab1 t using src s on t.id = s.id when matched then update set t.v = s.v when not matched then insert (id, v) values (s.id, s.v)"),
+    ("ansi", "update tab1 set a = s.b from src s where tab1.id = s.id"),
+    ("postgres", "copy tab1 from '/tmp/x.csv'"),
+    ("ansi", "create table tab1 like src"),
+    ("ansi", "create view v1 (a, b) as select c, d from src"),
+    ("sparksql", "cache table tab1; insert into tab2 select a from tab1"),
+]
+
+
 def seeds_for(tier):
-    out = []
+    out = [(f"extra:{i}", sql, d, "single+all") for i, (d, sql) in enumerate(EXTRA_SEEDS)]
     seen_fn = set()
     for r in corpus.corpus(("tests", "docs")):
         if not r["fluff"]:
